@@ -32,6 +32,8 @@ REQ_CFGS = {
     "tinys": Cfg(8, 4, 3, 40, 24, 2, True),
     "mid": Cfg(64, 8, 8, 200, 64, 4, False),
     "mids": Cfg(64, 8, 8, 200, 64, 4, True),
+    # many header lines allowed, small cumulative header length: the length limit must be what stops a header flood
+    "wide": Cfg(64, 8, 60, 100, 64, 4, False),
 }
 LONG_MAX = 9223372036854775807
 RESP_CFGS = {
